@@ -411,6 +411,10 @@ func allFlows(thorough bool) []*flowDef {
 	add("device", "authorization-public", "A", "device-codes", true, func(x *setupCtx) final {
 		return final{mk: post("/device_authorization", url.Values{"scope": {"openid"}, "client_id": {"pub"}}, nil)}
 	})
+	add("device", "authorization-by-assertion", "A", "device-codes", true, func(x *setupCtx) final {
+		return final{mk: post("/device_authorization", url.Values{"scope": {"openid"}, "client_assertion": {assertion()},
+			"client_assertion_type": {oidc.ClientAssertionTypeJWTAssertion}}, nil), inputs: []string{assertion()}}
+	})
 	poll := func(kase, variants, client, scope, approve, expect string, th bool) {
 		add("device", kase, variants, expect, th, func(x *setupCtx) final {
 			dc := x.device(client, scope, approve)
@@ -470,12 +474,19 @@ func allFlows(thorough bool) []*flowDef {
 				f.Set("token_type_hint", hint)
 			}
 			var hdr map[string]string
-			if x.r.Core.Cfg.Clients[client].Method == oidc.AuthMethodNone {
+			switch x.r.Core.Cfg.Clients[client].Method {
+			case oidc.AuthMethodNone:
 				f.Set("client_id", client)
-			} else {
+			case oidc.AuthMethodPost:
+				f.Set("client_id", client)
+				f.Set("client_secret", secretOf(client))
+			case oidc.AuthMethodPrivateKeyJWT:
+				f.Set("client_assertion", assertion())
+				f.Set("client_assertion_type", oidc.ClientAssertionTypeJWTAssertion)
+			default:
 				hdr = basic(client)
 			}
-			return final{mk: post("/revoke", f, hdr), inputs: []string{tok}}
+			return final{mk: post("/revoke", f, hdr), inputs: []string{tok, assertion()}}
 		})
 	}
 	revoke("access-token", "web", "access_token", "", false)
@@ -484,6 +495,8 @@ func allFlows(thorough bool) []*flowDef {
 	revoke("refresh-token-hinted", "web", "refresh_token", "refresh_token", false)
 	revoke("jwt-access-token", "webjwt", "access_token", "", false)
 	revoke("jwt-access-token-hinted", "webjwt", "access_token", "access_token", false)
+	revoke("by-assertion", "jwt", "refresh_token", "", false)
+	revoke("by-secret-post", "post", "access_token", "", false)
 	revoke("public-client", "pub", "refresh_token", "", true)
 
 	// ---- end session ----------------------------------------------------------
